@@ -20,8 +20,14 @@ func main() {
 		fmt.Fprintln(os.Stderr, "usage: tunerewrite src dst names")
 		os.Exit(2)
 	}
+	// names may carry an explicit type for untyped constants: name:type
 	want := map[string]bool{}
+	typ := map[string]string{}
 	for _, n := range strings.Split(os.Args[3], ",") {
+		if i := strings.IndexByte(n, ':'); i > 0 {
+			typ[n[:i]] = n[i+1:]
+			n = n[:i]
+		}
 		want[n] = true
 	}
 	fset := token.NewFileSet()
@@ -44,6 +50,9 @@ func main() {
 			if len(vs.Names) == 1 && want[vs.Names[0].Name] && len(vs.Values) == 1 {
 				if _, lit := vs.Values[0].(*ast.BasicLit); lit {
 					found[vs.Names[0].Name] = true
+					if t := typ[vs.Names[0].Name]; t != "" && vs.Type == nil {
+						vs.Type = ast.NewIdent(t)
+					}
 					decls = append(decls, &ast.GenDecl{Tok: token.VAR, Specs: []ast.Spec{vs}})
 					continue
 				}
